@@ -9,7 +9,7 @@
      ===S        arb_spec     case-insensitive equality with str(candidate)                                            *)
 From Coq Require Import List Arith NArith Bool Lia.
 Import ListNotations.
-Require Import S1 VParse VComplete VTop VTop2 VDec Py VMeaning VCmp SpecModel SpecOps SpecOps2 Prefix Prefix4 Compat SpecParse SpecSound SpecContains SpecSem SpecMain SpecLink.
+Require Import S1 VParse VComplete VTop VTop2 VDec Py VMeaning VCmp SpecModel SpecOps SpecOps2 Prefix Prefix4 Compat SpecParse SpecSound SpecContains SpecSem SpecMain SpecLink SpecGate SpecArb SpecAdmit SpecStruct SpecSpell VAscii.
 Open Scope N_scope.
 
 (* 1. every specifier the constructor accepts denotes a version form its operator admits (so the semantics below is defined) *)
@@ -34,6 +34,94 @@ Theorem C03_operator_table sp f c : VMeaning.wf_version c -> interp sp = Some f 
   compare_op (sp_op sp) c (sp_text sp) = sem (sp_op sp) f c.
 Proof. exact (compare_op_spec sp f c). Qed.
 Print Assumptions C03_operator_table.
+
+(* 4. "with pre-releases enabled", however that comes about.  [arg] = the call argument, [ov] = the object's own setting (constructor
+      keyword or attribute assigned later), neither = the operator's automatic default; `item in spec` is contains with no argument.
+      Gate open (setting true, or the candidate is no pre-release): the answer is the PEP 440 definition.  Gate closed: a pre-release is refused. *)
+Theorem C03_gate_open s sp ov arg item c : Specifier s = Some sp -> Version item = Some c ->
+  (match arg with Some b => b | None => effective_pre ov sp end) = true \/ is_prerelease c = false ->
+  Some (contains sp ov arg item) = contains_spec sp item.
+Proof. exact (gate_open s sp ov arg item c). Qed.
+Print Assumptions C03_gate_open.
+Theorem C03_gate_closed sp ov arg item c : Version item = Some c ->
+  (match arg with Some b => b | None => effective_pre ov sp end) = false -> is_prerelease c = true -> contains sp ov arg item = Ans false.
+Proof. exact (gate_closed sp ov arg item c). Qed.
+Print Assumptions C03_gate_closed.
+Theorem C03_invalid_candidate sp ov arg item : Version item = None -> contains sp ov arg item = BadItem.
+Proof. exact (gate_bad_item sp ov arg item). Qed.
+Print Assumptions C03_invalid_candidate.
+(* Specifier(s, prereleases=True).contains(item) and item in Specifier(s, prereleases=True) *)
+Theorem C03_enabled_by_object_setting s sp item : Specifier s = Some sp ->
+  Some (contains sp (Some true) None item) = contains_spec sp item /\ Some (in_op sp (Some true) item) = contains_spec sp item.
+Proof. exact (enabled_by_object_setting s sp item). Qed.
+Print Assumptions C03_enabled_by_object_setting.
+
+(* 5. the === clause has content: the candidate's normalised string is lower-case ASCII already, so "case-insensitive equality" means
+      that lower-casing the specifier's text yields exactly str(candidate); for ASCII text that is per-character ASCII lower-casing;
+      a matching text consists of ASCII characters and, at most, U+212A KELVIN SIGN (str.lower() maps it to 'k') *)
+Theorem C03_normalised_string_is_lower_case c : VMeaning.wf_version c -> py_lower (vstr c) = vstr c /\ forallb is_ascii (vstr c) = true.
+Proof. intros W. split; [exact (py_lower_vstr c W) | exact (allC_ascii _ (vstr_alphabet c W))]. Qed.
+Print Assumptions C03_normalised_string_is_lower_case.
+Theorem C03_arbitrary_equality c t : VMeaning.wf_version c -> (arb_spec c t = true <-> py_lower t = vstr c).
+Proof. exact (arb_spec_iff c t). Qed.
+Print Assumptions C03_arbitrary_equality.
+Theorem C03_arbitrary_equality_ascii c t : VMeaning.wf_version c -> forallb is_ascii t = true -> (arb_spec c t = true <-> map lc t = vstr c).
+Proof. exact (arb_spec_ascii c t). Qed.
+Print Assumptions C03_arbitrary_equality_ascii.
+Theorem C03_arbitrary_match_alphabet c t : VMeaning.wf_version c -> arb_spec c t = true -> forallb (fun x => is_ascii x || (x =? 8490)) t = true.
+Proof. exact (arb_match_chars c t). Qed.
+Print Assumptions C03_arbitrary_match_alphabet.
+
+(* 6. the quantifier "every operator x every specifier version the operator admits", from the structured side: for every structured
+      version V the operator admits (and every wildcard form), the code model's comparison on the canonical text of V is [sem];
+      the constructor accepts operator + str(V), stores exactly that pair, and contains(item, prereleases=True) answers [sem] *)
+Theorem C03_structured o V c : form_ok o (FVer V) -> VMeaning.wf_version c -> compare_op o c (vstr V) = sem o (FVer V) c.
+Proof. exact (structured_ver o V c). Qed.
+Print Assumptions C03_structured.
+Theorem C03_structured_wildcard o V c : form_ok o (FWild V) -> VMeaning.wf_version c -> compare_op o c (vstr V ++ [46; 42]) = sem o (FWild V) c.
+Proof. exact (structured_wild o V c). Qed.
+Print Assumptions C03_structured_wildcard.
+Theorem C03_structured_contains o V item c : form_ok o (FVer V) -> Version item = Some c ->
+  exists b, Specifier (op_txt o ++ vstr V) = Some {| sp_op := o; sp_text := vstr V |} /\
+            sem o (FVer V) c = Some b /\ contains {| sp_op := o; sp_text := vstr V |} None (Some true) item = Ans b.
+Proof. exact (structured_contains o V item c). Qed.
+Print Assumptions C03_structured_contains.
+Theorem C03_structured_contains_wildcard o V item c : form_ok o (FWild V) -> Version item = Some c ->
+  exists b, Specifier (op_txt o ++ vstr V ++ [46; 42]) = Some {| sp_op := o; sp_text := vstr V ++ [46; 42] |} /\
+            sem o (FWild V) c = Some b /\ contains {| sp_op := o; sp_text := vstr V ++ [46; 42] |} None (Some true) item = Ans b.
+Proof. exact (structured_contains_wild o V item c). Qed.
+Print Assumptions C03_structured_contains_wildcard.
+(* ... and in ANY spelling Version() accepts: the text of an admitted version is accepted after the operator, as that operator
+      (semantic completeness of the operator/form table; C03_accepted_specifier_has_meaning is the converse) *)
+Theorem C03_every_admitted_version_is_accepted o t V : Version t = Some V -> admits o V ->
+  exists sp, Specifier (op_txt o ++ t) = Some sp /\ sp_op sp = o.
+Proof. exact (form_table_complete o t V). Qed.
+Print Assumptions C03_every_admitted_version_is_accepted.
+Theorem C03_every_admitted_wildcard_is_accepted o t V : (o = OEq \/ o = ONe) -> Version t = Some V -> plain V ->
+  (forall u c, t = u ++ [c] -> is_ws c = false) -> exists sp, Specifier (op_txt o ++ t ++ [46; 42]) = Some sp /\ sp_op sp = o.
+Proof. exact (form_table_complete_wild o t V). Qed.
+Print Assumptions C03_every_admitted_wildcard_is_accepted.
+
+(* ... with its denotation: in ANY spelling t of a version V the operator admits, Specifier(op + t) is that operator applied to exactly V
+      (resp. to V.* for a plain V followed by ".*"), and contains(item, prereleases=True) is [sem op V] *)
+Theorem C03_specifier_of_version o t V : Version t = Some V -> admits o V -> o <> OArb ->
+  exists sp, Specifier (op_txt o ++ t) = Some sp /\ sp_op sp = o /\ interp sp = Some (FVer V) /\ form_ok o (FVer V).
+Proof. exact (Specifier_of_version o t V). Qed.
+Print Assumptions C03_specifier_of_version.
+Theorem C03_specifier_of_wildcard o t V : (o = OEq \/ o = ONe) -> Version t = Some V -> plain V ->
+  (forall u c, t = u ++ [c] -> is_ws c = false) ->
+  exists sp, Specifier (op_txt o ++ t ++ [46; 42]) = Some sp /\ sp_op sp = o /\ interp sp = Some (FWild V) /\ form_ok o (FWild V).
+Proof. exact (Specifier_of_wildcard o t V). Qed.
+Print Assumptions C03_specifier_of_wildcard.
+Theorem C03_every_spelling_every_admitted_version o t V item c : Version t = Some V -> admits o V -> o <> OArb -> Version item = Some c ->
+  exists sp b, Specifier (op_txt o ++ t) = Some sp /\ sem o (FVer V) c = Some b /\ contains sp None (Some true) item = Ans b.
+Proof. exact (contains_of_version o t V item c). Qed.
+Print Assumptions C03_every_spelling_every_admitted_version.
+
+(* 7. the worked examples of PEP 440 "Version specifiers" (94 rows: ~=2.2.post3, ==1.1.* vs 1.1a1, >1.7 vs 1.7.0.post1, >1.7.post2 vs 1.7.0.post3,
+      <1.7 vs 1.7a1, local labels, zero padding, epochs, ===), evaluated with the declarative semantics: [sem] says what the PEP says *)
+Example C03_pep440_examples : pep440_table_check = true.
+Proof. vm_compute. reflexivity. Qed.
 
 (* non-vacuity: "~= v1.4.5.RC1" (spelled un-normalised) matches 1.4.9 and not 1.5, both sides computed by the code model *)
 Definition nonvac_check : bool :=
